@@ -12,6 +12,9 @@ One defect has two recognised shapes, selected by a boolean the model takes as a
   lower_skip_false_guard = false  <->  main loop: `if isinstance(statement, Nop): continue`
   lower_skip_false_guard = true   <->  ... followed by `if statement.condition is False: continue`
                                        (fixes/C05_false_guard_loop.patch)
+  lower_guard_outside = false     <->  conditional_to_ast + loop_to_ast_node: ForLoop(.., IfThenElse(c, s, Null))
+  lower_guard_outside = true      <->  loops_to_ast + loop_to_ast_node: IfThenElse(c, ForLoop(.., s), Null)
+                                       (fixes/C01_guard_outside_loops.patch)
 """
 import ast
 
@@ -48,6 +51,24 @@ LOOP_TO_AST_NODE = [
     "body=loop_to_ast_node(new_statement))\n"
     "else:\n"
     "    return conditional_to_ast(statement)"]
+
+# the other shape of the wrapping (fixes/C01_guard_outside_loops.patch): no conditional_to_ast;
+# loops_to_ast builds the loop nest around the bare statement, loop_to_ast_node puts the guard around it
+LOOPS_TO_AST_NEW = [
+    "if isinstance(statement, Assign) and statement.loops:\n"
+    "    loop_var_name, lower, upper = statement.loops[0]\n"
+    "    new_statement = statement.copy(loops=statement.loops[1:])\n"
+    "    return ForLoop(loop_var_name=loop_var_name, lbound=lower, ubound=upper, "
+    "body=loops_to_ast(new_statement))\n"
+    "else:\n"
+    "    return statement_to_ast(statement)"]
+
+LOOP_TO_AST_NODE_NEW = [
+    "if statement.condition is not True:\n"
+    "    new_statement = statement.copy(condition=True)\n"
+    "    return IfThenElse(statement.condition, loops_to_ast(new_statement), NullASTNode())\n"
+    "else:\n"
+    "    return loops_to_ast(statement)"]
 
 CREATE_HEAD = [
     "phase = code.phases[phase_name]",
@@ -118,9 +139,22 @@ LOWER_NODE = [
 def lowering_flags(repo):
     tree = _parse(repo, "dagrt/codegen/dag_ast.py")
     _expect("dag_ast.py statement_to_ast", _body_src(_find_def(tree, "statement_to_ast")), STATEMENT_TO_AST)
-    _expect("dag_ast.py conditional_to_ast", _body_src(_find_def(tree, "conditional_to_ast")),
-            CONDITIONAL_TO_AST)
-    _expect("dag_ast.py loop_to_ast_node", _body_src(_find_def(tree, "loop_to_ast_node")), LOOP_TO_AST_NODE)
+    defs = {n.name for n in tree.body if isinstance(n, ast.FunctionDef)}
+    has_old, has_new = "conditional_to_ast" in defs, "loops_to_ast" in defs
+    if has_old and not has_new:
+        guard_outside = False
+        _expect("dag_ast.py conditional_to_ast", _body_src(_find_def(tree, "conditional_to_ast")),
+                CONDITIONAL_TO_AST)
+        _expect("dag_ast.py loop_to_ast_node", _body_src(_find_def(tree, "loop_to_ast_node")), LOOP_TO_AST_NODE)
+    elif has_new and not has_old:
+        guard_outside = True
+        _expect("dag_ast.py loops_to_ast", _body_src(_find_def(tree, "loops_to_ast")), LOOPS_TO_AST_NEW)
+        _expect("dag_ast.py loop_to_ast_node", _body_src(_find_def(tree, "loop_to_ast_node")),
+                LOOP_TO_AST_NODE_NEW)
+    else:
+        raise ShapeError("dag_ast.py: expected exactly one of conditional_to_ast (guard inside the loops) and "
+                         "loops_to_ast (guard outside the loops), found %r"
+                         % sorted(defs & {"conditional_to_ast", "loops_to_ast"}))
     body = _body_src(_find_def(tree, "create_ast_from_phase"))
     n = len(CREATE_HEAD)
     if len(body) != n + 2:
@@ -141,12 +175,14 @@ def lowering_flags(repo):
     base = _parse(repo, "dagrt/codegen/codegen_base.py")
     ln = _find_def(_find_class(base, "StructuredCodeGenerator"), "lower_node")
     _expect("codegen_base.py lower_node", _body_src(ln), LOWER_NODE)
-    return skip_false
+    return skip_false, guard_outside
 
 
 def generate(repo):
     out = [HEADER % "c05"]
-    skip_false = lowering_flags(repo)
+    skip_false, guard_outside = lowering_flags(repo)
     out.append("(* dagrt/codegen/dag_ast.py create_ast_from_phase, main loop *)")
     out.append("Definition lower_skip_false_guard : bool := %s." % coq_bool(skip_false))
+    out.append("(* dagrt/codegen/dag_ast.py loop_to_ast_node: guard around the loop nest (true) or inside it *)")
+    out.append("Definition lower_guard_outside : bool := %s." % coq_bool(guard_outside))
     return "\n".join(out) + "\n"
